@@ -235,7 +235,7 @@ class SyncedDict(SyncedCollection, MutableMapping):
         return ret
 
     def clear(self):  # noqa: D102
-        self._data = {}
+        self._data.clear()
         with self._thread_lock:
             self._save()
 
